@@ -16,6 +16,13 @@ def level(n):
     return LEVEL.get(n["k"], 7)
 
 
+# only shapes the generated lexer takes as ONE comment ending where it appears to: its pattern /\*([^*]|\*[^/])*\*/ consumes a star
+# together with the character after it, so a comment whose closing star is the second of such a pair (`/***/`, `/* x **/`) runs on
+# to a later `*/` (the deviation recorded in Lex.tla); those are not comments of the language as implemented and are left out
+BLOCK_COMMENTS = ["/**/", "/****/", "/* **bold** text */", "/*** banner ***/", "/* a ** b */", "/*/ */", "/* / * / */",
+                  "/* line one\n * line two\n ** three\n */", "/* one *//* two */", "/* *a */", "/* ***/", "/*** é€ ** \U0001F600 */", "/* // not a line comment */"]
+
+
 class Out:
     def __init__(self, style):
         self.parts = []
@@ -38,6 +45,11 @@ class Out:
             self.raw("  " if self.tok % 3 else " /* é€ */ ")
         elif st == 2:
             self.raw("\n  " if self.tok % 4 == 0 else " ")
+        elif st == 4:
+            # block comments in every shape the token pattern distinguishes: empty, stars at either end and inside,
+            # slashes and stars mixed, several lines, a comment directly after another
+            c = BLOCK_COMMENTS[(self.tok // 2) % len(BLOCK_COMMENTS)]
+            self.raw(" " if self.tok % 2 else " %s " % c)
         else:
             self.raw(" // \U0001F600 c\r\n" if self.tok % 5 == 0 else ("\t" if self.tok % 2 else " "))
 
